@@ -57,12 +57,15 @@ func (s *MessagePackSerializer) Serialize(msg wamp.Message) ([]byte, error) {
 
 // Deserialize decodes a msgpack payload into a Message.
 func (s *MessagePackSerializer) Deserialize(data []byte) (wamp.Message, error) {
-	var v []any
-	err := codec.NewDecoderBytes(data, mh).Decode(&v)
+	// Decode into an empty interface first: decoding directly into a slice
+	// would also accept a map (flattened into its keys and values).
+	var item any
+	err := codec.NewDecoderBytes(data, mh).Decode(&item)
 	if err != nil {
 		return nil, err
 	}
-	if len(v) == 0 {
+	v, ok := item.([]any)
+	if !ok || len(v) == 0 {
 		return nil, errors.New("invalid message")
 	}
 
